@@ -34,7 +34,7 @@ pub struct Runner<'a> {
 impl<'a> Runner<'a> {
     pub fn new(rep: &'a mut Report, check: &'static str, cfg: &Cfg) -> Runner<'a> {
         let mut rng = cfg.rng(check);
-        let mut pc_pool = vec![0xffbf20, 0xffff00, 0x400000, 0x5ffff0, 0xffc000, 0x416900];
+        let mut pc_pool = vec![0xffbf20, 0xffff00, 0x400000, 0x5ffff0, 0xffc000, 0x416900, 0x000010, 0x0000f0];
         for _ in 0..10 {
             let dram = rng.chance(1, 2);
             pc_pool.push(gen::code_addr(&mut rng, dram));
@@ -67,6 +67,7 @@ impl<'a> Runner<'a> {
         if let Opd::R(df) = insn.dst {
             wrr(&mut c.er, df, dsz, dval);
         }
+        gen::maybe_bus(&mut self.rng, &mut c);
         let obs = self.lock.run(&c);
         let judged = record(self.rep, self.check, &c, &obs, &self.judge);
         if judged {
